@@ -209,6 +209,7 @@ class Interp:
         self.loop_limit = LOOP_LIMIT
         self.state_limit = PATH_LIMIT * 50
         self.lists = {}           # list id -> length (k-bounded list model, see listmodel.py)
+        self.const_params = {}    # const generic name -> value (container model: `[T; N]` analysed with N = list length)
         self.acq_limit = None     # cut a path when it is about to issue more than this many blocking acquisitions
         self.frame_fn = {}        # frame id -> function (types of locals)
         self.getptrs_hook = None  # data model: get_ptrs of the abstract root lockable appends the modelled leaves
@@ -293,6 +294,8 @@ class Interp:
         return ("O", loc[1], loc[2] + (p,))
 
     def project(self, st, v, p, loc):
+        if v[0] == "agg" and v[1] == "slice" and isinstance(p, int):
+            return v      # Box<[T]> / Vec<T> internals (Unique, NonNull, RawVec ...) all wrap the pointer to the same elements
         if v[0] == "agg":
             if isinstance(p, int):
                 if p < len(v[4]):
@@ -443,6 +446,8 @@ class Interp:
                 try:
                     return Const(int(body))
                 except ValueError:
+                    if s in self.const_params:
+                        return Const(self.const_params[s])     # a const generic instantiated by the container model
                     return Const(s)
             if t["k"] == "tuple" and not t["elems"]:
                 return UNIT
@@ -564,7 +569,19 @@ class Interp:
                 return Agg("closure", rv["id"], 0, ops)
             return Agg("other", a, 0, ops)
         if k == "repeat":
-            return Agg("array", "repeat", 0, [self.eval_operand(st, fid, rv["op"])])
+            elem = self.eval_operand(st, fid, rv["op"])
+            cnt = rv.get("n")
+            if self.model_vecs and cnt is not None:
+                n = self.const_params.get(str(cnt).strip(), None)
+                if n is None:
+                    try:
+                        n = int(str(cnt).split("_")[0])
+                    except ValueError:
+                        n = None
+                if n is not None and n <= 8:
+                    import listmodel
+                    return listmodel.make_list(self, st, [elem] * n)
+            return Agg("array", "repeat", 0, [elem])
         return self.fresh_op(st, "rv", tag=("rvalue", rv.get("s", k)))
 
     # ---- events -----------------------------------------------------------
@@ -1226,11 +1243,11 @@ class Interp:
             rv = self.fresh_op(st, "p", dest_ty, tag=("prim", tdef, ev["i"]))
             ev["result"] = rv[1]
             return self.outcomes(st, rv, may_unwind, tdef, fn, line)
-        m = MODELS.get(d) or MODELS.get(tdef)
-        if m is not None:
-            out = m(self, st, fn, ce, args, line, depth, dest_ty, may_unwind)
-            if out is not None:
-                return out
+        for m in (MODELS.get(d), MODELS.get(tdef) if tdef != d else None):
+            if m is not None:
+                out = m(self, st, fn, ce, args, line, depth, dest_ty, may_unwind)
+                if out is not None:
+                    return out
         if lfn is not None:
             return self.inline(st, lfn, args, depth)
         # unknown foreign function
